@@ -122,15 +122,37 @@ def dest_equals(dest, target):
 # ------------------------------------------------------------------------------------------------ allocator contract
 
 def allocator_fns(tm):
-    """Crate functions that call the platform mapping primitive directly."""
-    out = []
+    """Crate functions that own the placement search: those calling the platform mapping primitive directly, or - when that
+    caller is a loop-free wrapper around the primitive - the unique chain of callers up to the first function with a loop."""
+    from .. import cfg as cfgmod
+    direct = []
+    callers = {}
     for b in tm.facts.fn_bodies():
         for blk in b["blocks"]:
             t = blk["term"]
             if t["k"] == "call" and t["callee"]["k"] == "def":
                 n = (t["callee"].get("resolved") or t["callee"])["path"]
-                if n in ALLOC_FFI and b["path"] not in out:
-                    out.append(b["path"])
+                if n in ALLOC_FFI and b["path"] not in direct:
+                    direct.append(b["path"])
+                callers.setdefault(n, set()).add(b["path"])
+
+    def has_loop(p):
+        b = tm.facts.body(p)
+        return bool(b) and bool(cfgmod.CFG(b).back_edges())
+    out = []
+    for p in direct:
+        q, seen = p, set()
+        while not has_loop(q) and q not in seen:
+            seen.add(q)
+            cs = callers.get(q, set()) - {q}
+            if len(cs) != 1:
+                q = p if not has_loop(q) else q
+                break
+            q = next(iter(cs))
+        if not has_loop(q):
+            q = p
+        if q not in out:
+            out.append(q)
     return out
 
 
